@@ -61,7 +61,8 @@ Proof.
     destruct (get subj (metrics s)) as [[nc ns]|]; [destruct (q_chs (quo s) <=? nc)|rewrite first_checked_true in H1; destruct (q_chs (quo s) <=? 0)]; inv H1; cbn; lia.
   - inv H. unfold upd_store. cbn. unfold offs. rewrite gp_set, getp_gp, !gp_ensure.
     destruct (q =? p) eqn:E; [|lia]. apply N.eqb_eq in E; subst. cbn. apply N.leb_le in Am. exact Am.
-  - destruct (has (KUpd p) (calls s) && can_enq s); inv H. apply Same. reflexivity.
+  - destruct (upd_enq p s) as [s1|] eqn:E; inv H. apply upd_enq_spec in E; subst. apply Same. reflexivity.
+  - destruct (has (KUpd p) (calls s) && negb (can_enq s) && upd_blocking); inv H. lia.
   - inv H. rewrite (sub_reg_offs _ _ _ _ _ q H1). lia.
   - destruct (has (KSub c p false) (calls s)); inv H. rewrite mark_late_eq. apply Same. reflexivity.
   - destruct (has (KSub c p true) (calls s) && can_enq s); inv H. apply Same. reflexivity.
@@ -117,7 +118,8 @@ Proof.
     { intros u. rewrite wv_set. destruct (c =? nextc s); [discriminate | auto]. }
     destruct (get subj (metrics s)) as [[nc ns]|]; [destruct (q_chs (quo s) <=? nc)|rewrite first_checked_true in H1; destruct (q_chs (quo s) <=? 0)]; inv H1; auto.
   - inv H. unfold upd_store. cbn. rewrite ensure_chans. auto.
-  - destruct (has (KUpd p) (calls s) && can_enq s); inv H. auto.
+  - destruct (upd_enq p s) as [s1|] eqn:E; inv H. apply upd_enq_spec in E; subst. auto.
+  - destruct (has (KUpd p) (calls s) && negb (can_enq s) && upd_blocking); inv H. auto.
   - inv H. intros u. rewrite (sub_reg_wv _ _ _ _ _ c H1). auto.
   - destruct (has (KSub c0 p false) (calls s)); inv H. auto.
   - destruct (has (KSub c0 p true) (calls s) && can_enq s); inv H. auto.
